@@ -22,6 +22,9 @@ from harness.drivers.common import read_payload, emit
 def register_cells(cells):
     """Exactly what IPython's CachingCompiler.cache does for the source of a cell."""
     for name, text in cells.items():
+        if text is None:        # a cell name whose source is not (no longer) cached: e.g. statistics loaded in another process
+            linecache.cache.pop(name, None)
+            continue
         linecache.cache[name] = (len(text), None, [line + '\n' for line in text.splitlines()], name)
 
 
@@ -115,16 +118,25 @@ def main():
             cells = case.get('cells') or {}
             envs = [observe_env(fn, lineno, cells) for fn, lineno, name, tm in case['stats']]
             texts = []
+            enc = case.get('encoding')
             for strip, sort, summ, det in case['combos']:
-                stream = io.StringIO()
+                # the stream: io.StringIO, or a text stream with a strict encoding that may not be able
+                # to encode every source line
+                buf = io.BytesIO()
+                stream = io.TextIOWrapper(buf, encoding=enc, newline='') if enc else io.StringIO()
+                value = (lambda: (stream.flush(), buf.getvalue().decode(enc))[1]) if enc else stream.getvalue
                 linecache.clearcache()
                 register_cells(cells)       # every report starts with the cells' sources cached
                 try:
                     report(case.get('entry') or 'show_text', stats, case['unit'], case['output_unit'],
                            (strip, sort, summ, det), stream, d)
-                    texts.append(dict(text=stream.getvalue(), err=None))
+                    texts.append(dict(text=value(), err=None))
                 except (Exception, SystemExit) as e:  # noqa
-                    texts.append(dict(text=stream.getvalue(), err=type(e).__name__))
+                    try:
+                        partial = value()
+                    except Exception:  # noqa
+                        partial = ''
+                    texts.append(dict(text=partial, err=type(e).__name__))
             out.append(dict(env=envs, texts=texts))
         finally:
             shutil.rmtree(d, ignore_errors=True)
